@@ -19,7 +19,13 @@ from fickling.pytorch import PyTorchModelWrapper  # noqa: E402
 PAY = {"plain": "__import__('verif_sink').hit('C16')",
        "newline": "import verif_sink\nverif_sink.hit('C16')\n",
        "nonascii": "note = 'π ≠ 3'; __import__('verif_sink').hit('C16')",
-       "quotes": "s = \"it's\" + 'a\"b' + '\\\\'; __import__('verif_sink').hit('C16')"}
+       "quotes": "s = \"it's\" + 'a\"b' + '\\\\'; __import__('verif_sink').hit('C16')",
+       # length boundaries of the text opcodes, in characters and in encoded bytes (at most 255 characters but more than 255
+       # bytes; exactly 255 / 256 bytes; more than 255 characters)
+       "len_chars_lt_bytes": "note = '" + "\u4e2d" * 70 + "'; __import__('verif_sink').hit('C16')",
+       "len_255": ("__import__('verif_sink').hit('C16')  # " + "x" * 300)[:255],
+       "len_256": ("__import__('verif_sink').hit('C16')  # " + "\u00e9" * 300)[:200] + "y" * 11,
+       "len_long": "__import__('verif_sink').hit('C16')  # " + "z" * 70000}
 DT = [torch.float32, torch.float64, torch.float16, torch.int64, torch.int32, torch.uint8, torch.bool, torch.bfloat16]
 
 
